@@ -61,6 +61,38 @@ pub fn boundary_packets_v3(tier: &str) -> Vec<v3::Packet> {
     }
     v
 }
+/// length-prefixed fields of exactly 65,534 and 65,535 bytes, one field kind per packet
+pub fn max_field_packets_v3() -> Vec<v3::Packet> {
+    let mut v = Vec::new();
+    for n in [65534usize, 65535] {
+        v.push(publish_v3(n, 3, false));
+        let mut c = v3::Connect::new(std::sync::Arc::new("c".repeat(n)), 1);
+        v.push(v3::Packet::Connect(c.clone()));
+        c.client_id = std::sync::Arc::new("c".to_string());
+        c.username = Some(std::sync::Arc::new("é".repeat(n / 2) + if n % 2 == 1 { "x" } else { "" }));
+        c.password = Some(Bytes::from(vec![0xABu8; n]));
+        v.push(v3::Packet::Connect(c));
+        v.push(v3::Packet::Unsubscribe(v3::Unsubscribe::new(pid1(), vec![mqtt_proto::TopicFilter::try_from("f".repeat(n)).unwrap()])));
+    }
+    v
+}
+pub fn max_field_packets_v5() -> Vec<v5::Packet> {
+    let mut v = Vec::new();
+    for n in [65534usize, 65535] {
+        v.push(publish_v5(n, 3));
+        let mut p = v5::Publish::new(QosPid::Level0, TopicName::try_from("t".to_string()).unwrap(), Bytes::from_static(b"p"));
+        p.properties.correlation_data = Some(Bytes::from(vec![7u8; n]));
+        v.push(v5::Packet::Publish(p));
+        let mut a = v5::Auth::new(v5::AuthReasonCode::ContinueAuthentication);
+        a.properties.auth_data = Some(Bytes::from(vec![1u8; n]));
+        v.push(v5::Packet::Auth(a));
+        let mut d = v5::Disconnect::new(v5::DisconnectReasonCode::NormalDisconnect);
+        d.properties.user_properties = vec![v5::UserProperty { name: std::sync::Arc::new("k".repeat(n)), value: std::sync::Arc::new(String::new()) }];
+        v.push(v5::Packet::Disconnect(d));
+    }
+    v
+}
+
 pub fn boundary_packets_v5(tier: &str) -> Vec<v5::Packet> {
     let mut v = Vec::new();
     let mut bs = vec![127usize, 16383];
@@ -89,10 +121,10 @@ pub fn record_roundtrip(out: &mut Out, tier: &str, seed: u64) {
     let n = if tier == "thorough" { 60000 } else { 2400 };
     let mut rng = Rng::new(seed ^ 0xC01);
     let mut b = budget(tier);
-    for p in boundary_packets_v3("quick") {
+    for p in boundary_packets_v3("quick").into_iter().chain(max_field_packets_v3()) {
         roundtrip_event::<V3>(out, &p);
     }
-    for p in boundary_packets_v5("quick") {
+    for p in boundary_packets_v5("quick").into_iter().chain(max_field_packets_v5()) {
         roundtrip_event::<V5>(out, &p);
     }
     for p in all_code_packets_v3() {
@@ -164,10 +196,10 @@ pub fn record_lens(out: &mut Out, tier: &str, seed: u64, profile: &str) {
     let n = if tier == "thorough" { 30000 } else { 1800 };
     let mut rng = Rng::new(seed ^ 0xC02);
     let mut b = budget(tier);
-    for p in boundary_packets_v3("quick") {
+    for p in boundary_packets_v3("quick").into_iter().chain(max_field_packets_v3()) {
         lens_event::<V3>(out, &p, profile);
     }
-    for p in boundary_packets_v5("quick") {
+    for p in boundary_packets_v5("quick").into_iter().chain(max_field_packets_v5()) {
         lens_event::<V5>(out, &p, profile);
     }
     for p in all_code_packets_v3() {
@@ -354,10 +386,10 @@ pub fn record_enc(out: &mut Out, tier: &str, seed: u64) {
     let mut b = budget(tier);
     b.huge = b.huge.min(3);
     // every enum variant that is written as a wire number, in every packet type that carries it
-    for p in boundary_packets_v3("quick") {
+    for p in boundary_packets_v3("quick").into_iter().chain(max_field_packets_v3().into_iter().take(4)) {
         enc_event::<V3>(out, &mut rng, &p);
     }
-    for p in boundary_packets_v5("quick") {
+    for p in boundary_packets_v5("quick").into_iter().chain(max_field_packets_v5().into_iter().skip(4)) {
         enc_event::<V5>(out, &mut rng, &p);
     }
     for p in all_code_packets_v3() {
@@ -365,6 +397,24 @@ pub fn record_enc(out: &mut Out, tier: &str, seed: u64) {
     }
     for p in all_code_packets_v5() {
         enc_event::<V5>(out, &mut rng, &p);
+    }
+    // PUBLISH payload sizes around the powers of two where buffering fast paths switch, with every flag combination
+    for (k, n) in [255usize, 256, 1024, 4095, 4096, 4097, 8192, 16384, 65536].iter().enumerate() {
+        for fl in 0..8u8 {
+            if *n > 8192 && fl % 3 != k as u8 % 3 {
+                continue;
+            }
+            let (dup, retain, q1) = (fl & 1 != 0, fl & 2 != 0, fl & 4 != 0);
+            let qp = if q1 { QosPid::Level1(pid1()) } else { QosPid::Level0 };
+            let mut p3 = v3::Publish::new(qp, TopicName::try_from("t".to_string()).unwrap(), Bytes::from(vec![0x5Au8; *n]));
+            p3.dup = dup;
+            p3.retain = retain;
+            enc_event::<V3>(out, &mut rng, &v3::Packet::Publish(p3));
+            let mut p5 = v5::Publish::new(qp, TopicName::try_from("t".to_string()).unwrap(), Bytes::from(vec![0x5Au8; *n]));
+            p5.dup = dup;
+            p5.retain = retain;
+            enc_event::<V5>(out, &mut rng, &v5::Packet::Publish(p5));
+        }
     }
     let types3 = V3::types();
     for i in 0..n {
